@@ -273,149 +273,7 @@ def _run(ck, m):
         ck.undecided('C13.d', 'next_version', 'anchor', 'expected one (&Change, &Value) -> i32, found %d' % len(nv))
     else:
         b = nv[0]
-        # sequence of tests along the entry's false-edge chain, with what each true arm returns
-        seq = []
-        tests = []
-        for bi, t in b.calls():
-            n = callee(t).split('::')[-1]
-            if n in ('keep_in_conflict_resolution', 'resolving_conflict', 'is_in_conflict_resolution'):
-                who = 'self' if any(r[0] == 'param' and r[1] == 1 for r in origins(b, t['args'][0])) else 'old'
-                tests.append((bi, n, who))
-        for bl_i, bl in enumerate(b.blocks):
-            for s in bl['s']:
-                if s['k'] == 'assign' and s['r']['k'] == 'bin' and s['r']['op'] == 'Eq' and [const_val(r) for r in origins(b, s['r']['b'])] == [-1]:
-                    tests.append((bl_i, 'version==-1', 'self'))
-        # order by dominance depth
-        tests.sort(key=lambda x: len(b.dom().get(x[0], ())))
-        names = ['%s(%s)' % (n, w) for _, n, w in tests]
-        # the outer chain: each later outer test is on the false side of the earlier ones; the nested
-        # is_in_conflict_resolution under `resolving` is allowed
-        want = ['keep_in_conflict_resolution(self)', 'resolving_conflict(self)']
-        okd = names[:2] == want and 'is_in_conflict_resolution(old)' in names[2:] and names[-1] == 'version==-1(self)'
-        # returns: marker kept -> self.version; stored in conflict (outer) -> old.version
-        ck.ob('C13.d', short(b.id), 'branch-order', okd,
-              'next_version tests %s in this order' % names if okd else 'next_version tests %s (expected keep-marker, resolving, stored-in-conflict, unversioned)' % names,
-              '%s:%s' % (b.file, b.line))
-        # the whole table: what each branch returns, as a symbolic expression over (self.version, old.version)
-        def sym(op_, depth=0):
-            out = set()
-            for r in origins(b, op_, stop_at_calls=True):
-                if r[0] == 'param':
-                    flds = tuple(q[2] for q in r[-1] if q[0] == 'f')
-                    out.add(('self' if r[1] == 1 else 'old') + '.' + '.'.join(flds))
-                elif r[0] == 'call' and depth < 4:
-                    tc = b.term(r[1])
-                    leaf = callee_decl(tc).split('::')[-1]
-                    if leaf in ('saturating_add', 'checked_add', 'wrapping_add') and tc['args']:
-                        out |= {'add(%s)' % x for x in sym(tc['args'][0], depth + 1)}
-                    else:
-                        out.add('call:' + leaf)
-                elif r[0] == 'arith':
-                    rv = b.blocks[r[1]]['s'][r[2]]['r']
-                    if rv.get('op', '').startswith('Add'):
-                        out |= {'add(%s)' % x for x in sym(rv['a'], depth + 1)}
-                    else:
-                        out.add('arith')
-                elif r[0] == 'const':
-                    out.add('const')
-                else:
-                    out.add(r[0])
-            return out
-
-        def returns_in(region):
-            res = set()
-            for (dbi, dsi, kind, pl) in b.defs().get(0, []):
-                if dbi in region and kind == 'assign' and pl['k'] == 'use':
-                    res |= sym(pl['o'])
-                elif dbi in region and kind == 'call':
-                    tc = b.term(dbi)
-                    leaf = callee_decl(tc).split('::')[-1]
-                    if leaf in ('saturating_add', 'checked_add', 'wrapping_add'):
-                        res |= {'add(%s)' % x for x in sym(tc['args'][0])}
-                    else:
-                        res.add('call:' + leaf)
-            return res
-        table = {}
-        by_name = {}
-        for (tbi, n_, w_) in tests:
-            by_name.setdefault('%s(%s)' % (n_, w_), []).append(tbi)
-
-        def edge_regions(tbi):
-            for (s2, tt, ft) in bool_switches(b, tbi) if b.term(tbi)['k'] == 'call' else bool_switches(b, local=[s_['l']['l'] for s_ in b.blocks[tbi]['s']
-                    if s_['k'] == 'assign' and s_['r']['k'] == 'bin' and s_['r']['op'] == 'Eq'][-1]):
-                yield ({x for x in b.reachable() if b.dominates(tt, x) and not b.dominates(ft, x)},
-                       {x for x in b.reachable() if b.dominates(ft, x) and not b.dominates(tt, x)})
-        want = None
-        try:
-            keep = by_name['keep_in_conflict_resolution(self)'][0]
-            resv = by_name['resolving_conflict(self)'][0]
-            oldc = by_name['is_in_conflict_resolution(old)']
-            unv = by_name['version==-1(self)'][0]
-            (k_t, k_f), = list(edge_regions(keep))[:1]
-            (r_t, r_f), = list(edge_regions(resv))[:1]
-            inner = [x for x in oldc if x in r_t]
-            outer = [x for x in oldc if x in r_f]
-            (i_t, i_f), = list(edge_regions(inner[0]))[:1]
-            (o_t, o_f), = list(edge_regions(outer[0]))[:1]
-            (u_t, u_f), = list(edge_regions(unv))[:1]
-            def selected_in(region):
-                # the version chosen on a branch and incremented after the branches join
-                res = set()
-                for x in region:
-                    for s_ in b.blocks[x]['s']:
-                        if s_['k'] == 'assign' and s_['r']['k'] == 'use' and not s_['l'].get('p') and b.locals[s_['l']['l']] == 'i32':
-                            res |= {y for y in sym(s_['r']['o']) if y.endswith('.version')}
-                return res
-            joined = returns_in(r_t)
-
-            def resolving(region):
-                direct = returns_in(region)
-                if direct:
-                    return direct
-                return {'add(%s)' % y for y in selected_in(region)} & joined
-            table = {
-                'marker kept': returns_in(k_t - r_t - r_f) or returns_in(k_t),
-                'resolving, stored in conflict': resolving(i_t),
-                'resolving, stored not in conflict': resolving(i_f),
-                'stored in conflict': returns_in(o_t - u_t - u_f) or returns_in(o_t),
-                'unversioned': returns_in(u_t),
-                'versioned': returns_in(u_f),
-            }
-            want = {
-                'marker kept': {'self.version'},
-                'resolving, stored in conflict': {'add(self.version)'},
-                'resolving, stored not in conflict': {'add(old.version)'},
-                'stored in conflict': {'old.version'},
-                'unversioned': {'add(old.version)'},
-                'versioned': {'add(self.version)'},
-            }
-        except (KeyError, IndexError, ValueError):
-            table = None
-        if table is None:
-            ck.ob('C13.d', short(b.id), 'return-table', False,
-                  'the resolving branch of next_version no longer distinguishes "stored entry in conflict resolution" from "not in conflict": a '
-                  'resolution answered twice (two arbiters, or a reconnecting one) builds on the version of the notice instead of the stored one — '
-                  'the store refuses it and the key keeps the other answer while the record says resolved', '%s:%s' % (b.file, b.line))
-        else:
-            diff = {k_: sorted(v_) for k_, v_ in table.items() if v_ != want[k_]}
-            ck.ob('C13.d', short(b.id), 'return-table', not diff,
-                  'next_version returns, per branch: ' + '; '.join('%s -> %s' % (k_, sorted(v_)) for k_, v_ in table.items()) if not diff else
-                  'next_version return table differs: %s (expected %s)' % (diff, {k_: sorted(want[k_]) for k_ in diff}), '%s:%s' % (b.file, b.line))
-        # what the first branch returns
-        okr = False
-        if tests:
-            for (s2, tt, ft) in bool_switches(b, tests[0][0]):
-                reg = {x for x in b.reachable() if b.dominates(tt, x) and not b.dominates(ft, x)}
-                rets = set()
-                for (dbi, dsi, kind, pl) in b.defs().get(0, []):
-                    if dbi in reg and kind == 'assign' and pl['k'] == 'use':
-                        for r in origins(b, pl['o']):
-                            if r[0] == 'param':
-                                rets.add((r[1], tuple(q[2] for q in r[-1] if q[0] == 'f')))
-                okr = rets == {(1, ('version',))}
-        ck.ob('C13.d', short(b.id), 'marker-kept-returns-own-version', okr,
-              'a change carrying the marker keeps it (returns self.version)' if okr else 'the first branch of next_version does not return self.version',
-              '%s:%s' % (b.file, b.line))
+        decision_table(ck, m, b)
     # ---- (e) ---------------------------------------------------------------------------
     d, dsw = m.dispatcher()
     effs, raw = m.arm_effects('Resolve')
@@ -539,3 +397,201 @@ def lister_covers_records(ck, m):
                   'no record matches, a newly registered arbiter is sent none of the unresolved conflicts and resolved records are never cleaned'
                   % (text, writers[0][2][0][1]), cb.loc(cbi))
         ck.floor('C13.i', ncalls, 1, 'list-all calls of the record lister (empty key)')
+
+
+def decision_table(ck, m, b):
+    """C13.d — the decision of next_version as a table over its four tests, read off every path of the function.
+
+    The function only *compares* (marker carried? resolving change? stored entry in conflict? unversioned?) and then returns one of
+    self.version / old.version, incremented or not: a finite set of orderings.  Every entry-to-return path of the CFG is walked,
+    the outcome of each test taken on it is recorded (the same test met twice must agree, which also covers a test hoisted into a
+    local), and the value returned on it is computed along that path.  Each of the 16 combinations of test outcomes must return
+    what the reference table says.  The order in which the source writes the tests does not matter, only the resulting function."""
+    P = m.prog
+    PRED = {}           # switch block -> (name, true target, false target)
+
+    def who_of(op):
+        rs = origins(b, op)
+        if any(r[0] == 'param' and r[1] == 1 for r in rs):
+            return 'self'
+        if any(r[0] == 'param' and r[1] == 2 for r in rs):
+            return 'old'
+        return '?'
+
+    def marker_test(body, s):
+        """`x.version == MARKER` as a bin statement: returns who or None"""
+        if not (s['k'] == 'assign' and s['r']['k'] == 'bin' and s['r']['op'] in ('Eq', 'Ne')):
+            return None
+        for x, y in ((s['r']['a'], s['r']['b']), (s['r']['b'], s['r']['a'])):
+            cv = [const_val(r) for r in origins(body, y)]
+            if len(cv) == 1 and isinstance(cv[0], int) and cv[0] < 0:
+                return cv[0], x, s['r']['op']
+        return None
+
+    def classify_call(t):
+        """a bool method of one argument whose body is a single comparison of .version with a negative constant, or a read of a bool
+        field: -> predicate name"""
+        cb = P.bodies.get(callee(t))
+        if cb is None or cb.locals[0] != 'bool' or cb.argc != 1 or not t['args']:
+            return None
+        who = who_of(t['args'][0])
+        if who == '?':
+            return None
+        # looks through one level of delegation (allow_save_version -> keep_in_conflict_resolution)
+        stack, seen = [cb], set()
+        while stack:
+            x = stack.pop()
+            if x.id in seen:
+                continue
+            seen.add(x.id)
+            for bl in x.blocks:
+                for s in bl['s']:
+                    mt = marker_test(x, s)
+                    if mt and mt[0] <= -2:
+                        return 'marker(%s)' % who
+            for _, t2 in x.calls():
+                c2 = P.bodies.get(callee(t2))
+                if c2 is not None and c2.locals[0] == 'bool' and c2.argc == 1:
+                    stack.append(c2)
+            # a plain field read of a bool
+            for r in core.place_origins(x, {'l': 0}):
+                if r[0] == 'param' and any(q[0] == 'f' for q in r[-1]):
+                    return 'flag:%s(%s)' % ([q[2] for q in r[-1] if q[0] == 'f'][-1], who)
+        return None
+
+    for bi, t in b.calls():
+        nm = classify_call(t)
+        if nm is None:
+            continue
+        for (sbi, tt, ft) in bool_switches(b, bi):
+            PRED[sbi] = (nm, tt, ft)
+    for bl_i, bl in enumerate(b.blocks):
+        for s in bl['s']:
+            mt = marker_test(b, s)
+            if mt is None:
+                continue
+            cv, x, op = mt
+            who = who_of(x)
+            nm = ('marker(%s)' % who) if cv <= -2 else ('unversioned(%s)' % who)
+            for (sbi, tt, ft) in bool_switches(b, local=s['l']['l']):
+                if op == 'Ne':
+                    tt, ft = ft, tt
+                PRED[sbi] = (nm, tt, ft)
+        # a bool field of the change read directly (`if self.resolve_conflict`)
+        t_ = b.term(bl_i)
+        if t_['k'] == 'switch' and bl_i not in PRED:
+            o = t_['o']
+            pl = o.get('c') or o.get('m')
+            if pl and b.locals[pl['l']] == 'bool':
+                for r in origins(b, o):
+                    if r[0] == 'param' and any(q[0] == 'f' for q in r[-1]):
+                        zero = [tb for v, tb in t_['targets'] if str(v) == '0']
+                        if zero:
+                            PRED[bl_i] = ('flag:%s(%s)' % ([q[2] for q in r[-1] if q[0] == 'f'][-1], 'self' if r[1] == 1 else 'old'), t_['else'], zero[0])
+    names = sorted({v[0] for v in PRED.values()})
+    flags = [n for n in names if n.startswith('flag:') and n.endswith('(self)')]
+    need = {'keep': 'marker(self)', 'oldc': 'marker(old)', 'unv': 'unversioned(self)'}
+    missing = [v for v in need.values() if v not in names]
+    if missing or len(flags) != 1:
+        ck.undecided('C13.d', short(b.id), 'return-table', 'tests of next_version not all located: found %s' % names, '%s:%s' % (b.file, b.line))
+        return
+    need['resv'] = flags[0]
+
+    def leaf(op, env):
+        if 'k' in op:
+            return 'const:%s' % op['k'].get('v')
+        pl = op.get('c') or op.get('m')
+        if pl is None:
+            return '?'
+        if not pl.get('p') and pl['l'] in env:
+            return env[pl['l']]
+        if pl['l'] in env and len(pl.get('p', ())) == 1 and pl['p'][0][0] == 'f' and str(env[pl['l']]).startswith('add('):
+            return env[pl['l']]         # (sum, overflowed).0 of a checked `+`
+        out = set()
+        for r in origins(b, op, stop_at_calls=True):
+            if r[0] == 'param':
+                out.add(('self' if r[1] == 1 else 'old') + '.' + '.'.join(q[2] for q in r[-1] if q[0] == 'f'))
+            else:
+                out.add(r[0])
+        return sorted(out)[0] if len(out) == 1 else 'one-of:%s' % sorted(out)
+
+    results = []        # (assignment, returned)
+    budget = [4000]
+
+    def walk(bi, env, asg, depth):
+        budget[0] -= 1
+        if budget[0] < 0 or depth > 200:
+            results.append((dict(asg), 'path-budget-exhausted'))
+            return
+        bl = b.blocks[bi]
+        env = dict(env)
+        for s in bl['s']:
+            if s['k'] != 'assign' or s['l'].get('p'):
+                continue
+            l = s['l']['l']
+            rv = s['r']
+            if rv['k'] == 'use':
+                env[l] = leaf(rv['o'], env)
+            elif rv['k'] == 'bin' and rv['op'].startswith('Add'):
+                env[l] = 'add(%s)' % leaf(rv['a'], env)
+            elif rv['k'] == 'cast':
+                env[l] = leaf(rv['o'], env)
+            else:
+                env.pop(l, None)
+        t_ = b.term(bi)
+        k = t_['k']
+        if k == 'return':
+            results.append((dict(asg), env.get(0, leaf({'c': {'l': 0}}, {}))))
+            return
+        if k == 'call':
+            d = t_['d']
+            lf = callee_decl(t_).split('::')[-1]
+            if not d.get('p'):
+                if lf in ('saturating_add', 'checked_add', 'wrapping_add') and t_['args']:
+                    env[d['l']] = 'add(%s)' % leaf(t_['args'][0], env)
+                else:
+                    env.pop(d['l'], None)
+            nxt = t_.get('t')
+            if nxt is not None:
+                walk(nxt, env, asg, depth + 1)
+            return
+        if bi in PRED:
+            nm, tt, ft = PRED[bi]
+            for val, tgt in ((True, tt), (False, ft)):
+                if nm in asg and asg[nm] != val:
+                    continue
+                a2 = dict(asg)
+                a2[nm] = val
+                walk(tgt, env, a2, depth + 1)
+            return
+        for s2 in b.succ(bi):
+            if b.blocks[s2].get('cleanup'):
+                continue
+            walk(s2, env, asg, depth + 1)
+    walk(0, {}, {}, 0)
+
+    def ref(keep, resv, oldc, unv):
+        if keep:
+            return 'self.version'
+        if resv:
+            return 'add(self.version)' if oldc else 'add(old.version)'
+        if oldc:
+            return 'old.version'
+        return 'add(old.version)' if unv else 'add(self.version)'
+    diff = []
+    import itertools
+    for keep, resv, oldc, unv in itertools.product((True, False), repeat=4):
+        total = {need['keep']: keep, need['resv']: resv, need['oldc']: oldc, need['unv']: unv}
+        got = {r for a, r in results if all(total.get(n_) == v_ for n_, v_ in a.items() if n_ in total)}
+        w = ref(keep, resv, oldc, unv)
+        if got != {w}:
+            diff.append('marker carried=%s resolving=%s stored in conflict=%s unversioned=%s: returns %s, expected %s'
+                        % (keep, resv, oldc, unv, sorted(got), w))
+    ck.meta['next_version_paths'] = len(results)
+    ck.ob('C13.d', short(b.id), 'return-table', not diff,
+          'next_version, over %d paths and the 16 combinations of its four tests: marker carried -> self.version; resolving -> stored in '
+          'conflict ? self.version+1 : old.version+1; stored in conflict -> old.version; unversioned -> old.version+1; else self.version+1'
+          % len(results) if not diff else
+          'next_version decision table differs in %d of 16 combinations: %s — a resolution that builds on the wrong version is refused by the '
+          'store (or stored below the current version), the key keeps the other value while the record says resolved' % (len(diff), '; '.join(diff[:4])),
+          '%s:%s' % (b.file, b.line))
